@@ -272,9 +272,9 @@ pub fn variants(prop: &str, base: &Plan, dry: &RunOut, r: &mut crate::env::Split
                         }
                         // C10: a drain dropped with elements left whose destructor panics inside that drop
                         // (the first, second or third destructor call of the drop, key or value)
-                        // (quick tier: three cancellation points and two positions; thorough: all of them)
+                        // (quick tier: three cancellation points; thorough: all of them; two destructor positions each)
                         if prop == "C10" && end == End::Drop && matches!(base.ops[i], Op::Drain { .. } | Op::SDrain { .. }) && (j as usize) < base.cfg.n.max(base.cfg.m) && (thorough || j == 0 || j == 1 || j == 3) {
-                            let sites: &[(u32, Cb)] = if thorough { &[(1, Cb::DropK), (2, Cb::DropK), (1, Cb::DropV), (3, Cb::DropV)] } else { &[(1, Cb::DropK), (2, Cb::DropV)] };
+                            let sites: &[(u32, Cb)] = if thorough && j % 2 == 1 { &[(2, Cb::DropK), (1, Cb::DropV)] } else { &[(1, Cb::DropK), (2, Cb::DropV)] };
                             for &(ord, kind) in sites {
                                 let mut q = p.clone();
                                 q.faults = vec![Fault { op: i, ord, kind: Some(kind) }];
